@@ -3,6 +3,7 @@ from pyvc.runner import Prop, Bounded, script_replay
 import contracts.guesser_core as gc
 import contracts.guesser_expand as ge
 import contracts.guesser_session as gs
+import contracts.omen_loader as oml
 
 M = gc.MOD + ':PcfgGrammar.'
 CS = gs.CS + ':'
@@ -15,12 +16,17 @@ def setup(eng):
 
 PROP = Prop(
     'C15', 'A Markov level interrupted mid-way resumes at the very next guess',
-    functions=[M + 'omen_generate_guesses', M + 'restore_omen', CS + 'CrackingSession._save_session', CS + 'CrackingSession.run'],
-    lemmas=lambda: ge.catvals_split.lemmas() + gs.flat_ext.lemmas(),
+    functions=[M + 'omen_generate_guesses', M + 'restore_omen', CS + 'CrackingSession._save_session', CS + 'CrackingSession.run',
+               # the pickled cursor is a pair of indices into the loaded tables: they are the files' content in file order, in every process
+               (oml.IO + ':_load_ngrams#ip', None), (oml.IO + ':_load_ngrams#cp', None), (oml.IO + ':_load_length', None)],
+    lemmas=lambda: ge.catvals_split.lemmas() + gs.flat_ext.lemmas() + oml.lemmas(),
     setup=setup,
     level='other',
     replay=script_replay('replay/session.py', default_fn='C15'),
     bounded=[
+        Bounded('C15.bounded.loaddet', 'replay/omen.py', args=['--fn', 'LOADDET'],
+                bound='two trained rulesets (n-gram 3 and 4), loaded in three processes with PYTHONHASHSEED 1, 2, 77',
+                clause='the tables the pickled cursor indexes (initial n-grams per level, lengths per level, transitions) are loaded in the same order in every process'),
         Bounded('C15.bounded.cuts', 'replay/omen.py', args=['--fn', 'CUTS'],
                 bound='random OMEN models (n-gram 2..4), every level 0..max, every cut position j of the level (first, last, boundaries '
                       'between lengths and initial n-grams), pickle to a file, fresh MarkovCracker with an empty optimizer, load_session',
